@@ -218,7 +218,8 @@ def sweep(m, sreq):
         return r.json
 
     by_consumer = {}
-    for c in gen.CONS:
+    everyone = sorted(set(gen.CONS) | set(d.consumers))
+    for c in everyone:
         j = get('/allocations/' + c)
         for rp, x in j['allocations'].items():
             for rc, a in x['resources'].items():
@@ -250,7 +251,7 @@ def sweep(m, sreq):
              op='sweep')
     if v >= (1, 12):
         owners = {}
-        for c in gen.CONS:
+        for c in everyone:
             r = m.svc.request('GET', '/allocations/' + c, version=vs)
             if r.json and r.json.get('allocations'):
                 owners[c] = (r.json['project_id'], r.json['user_id'])
